@@ -38,6 +38,14 @@ checks = {
    text="Cartesian enumeration of request/response field domains (0, 1, 2^32, max; empty/ASCII/non-ASCII ids; nil/empty/1 B/1 KiB byte slices; 0-2 entries of all three types; snapshot payloads 0 B to 8 MiB) through two real gRPC transports on loopback, the library's converters in-process, and read-back through the real file storages; received must equal sent field-wise (nil == empty bytes).",
    technique="exhaustive enumeration of a finite input domain through the real transport and storages",
    note="Trusted base: loopback TCP, gRPC, the comparison code. LogEntry.Offset is storage-only and not compared on the RPC path. 2-entry lists over real RPCs use a pairwise header design (full product in-process).", ref="4/C19"),
+ "C10": dict(level="exploration", engine="sched",
+   text="Schedule enumeration on the real code: scenarios (local snapshot racing with application on a single node, sequential/concurrent submissions, 0 B to >32 KiB payloads, crash+restart from the snapshot; snapshot installation on a lagging follower racing with application, restore and compact branches) are executed under every schedule with up to 1-2 (quick) / 2-3 (thorough) non-default decisions at the library's synchronisation points; every snapshot that becomes visible must hold exactly the applied prefix up to its label and every state machine instance must always hold a duplicate-free, gap-free prefix of the applied order.",
+   technique="stateless schedule enumeration with iterative context bounding on the real code (controlled scheduler)",
+   note="Trusted base: scheduler shim, in-memory storage, recfsm. Switch points are the library's synchronisation operations (sound given C20). Bounded number of non-default decisions; fixed scenarios.", ref="4/C10"),
+ "C20": dict(level="exploration", engine="sched",
+   text="The same schedule enumeration built with -race: hand-offs between goroutines go through //go:norace spin gates and shim functions are norace, so the detector's happens-before analysis sees only the library's own synchronisation (real mutexes inside the shim mutex, real goroutine creation, message transfer edges); six scenarios (election + submitters + status pollers, snapshot while applying, membership changes during submissions, Stop/Restart during activity, snapshot installation on a lagging follower, lifecycle calls racing on a fresh node) under every schedule with up to 1 (quick) / 2 (thorough) non-default decisions; any report whose two accesses are both in library code is a violation.",
+   technique="schedule enumeration under the Go race detector with detector-invisible scheduler hand-offs",
+   note="Trusted base: Go race detector (bounded access history per word), shims. Reports with a harness-side access are ignored (the harness reads library memory between hand-offs by design).", ref="4/C20"),
 }
 
 not_applicable = {}
@@ -60,6 +68,7 @@ m = {
    {"name": "cluster", "path": "mc/explore + mc/sim + mc/monitor", "serves_properties": sorted(k for k, v in checks.items() if v["engine"] == "cluster"),
     "kind_free_text": "stateful depth-first search over environment events of a simulated cluster running the real library under a cooperative scheduler (overlay-instrumented build)"},
    {"name": "handler", "path": "mc/cmd/check/c06.go + mc/sim/single.go", "serves_properties": ["C06"], "kind_free_text": "exhaustive small-scope input enumeration against exported handlers of a real node booted from preloaded storage"},
+   {"name": "sched", "path": "mc/sched", "serves_properties": ["C10", "C20"], "kind_free_text": "stateless enumeration of goroutine schedules of fixed scenarios up to a bound on non-default decisions (controlled cooperative scheduler; optionally under -race)"},
    {"name": "codec", "path": "mc/codec", "serves_properties": ["C19"], "kind_free_text": "exhaustive enumeration of message/record domains through the real gRPC transport and file storages"},
  ],
  "checks": [],
